@@ -187,6 +187,8 @@ def bounded(b):
                              ("mei", "dur.ppq", lambda: NT.to_mei(doc, with_ppq=True, ppq=_ppq(doc)))]
             if "kern" in formats:
                 variants += [("krn", "kern", lambda: NT.to_kern(doc))]
+                if len(doc.staves) > 1:
+                    variants += [("krn", "kern_spines_of_one_part", lambda: NT.to_kern(doc, same_part=True))]
             for ext, enc, render in variants:
                 case = {"document": name, "format": ext, "encoding": enc}
                 ok, text = b.guard("writer/independent_writer", case, render)
@@ -206,6 +208,24 @@ def bounded(b):
                 if fmt == "kern":
                     # the kern reader returns the parts in score order (top staff first), the writer emitted the spines bottom-up
                     pass
+                if enc == "kern_spines_of_one_part":
+                    # the spines carry the same *part: one part holding every staff; the voice numbering across spines is the reader's choice
+                    nov = lambda c: Counter({(k[1:]): v for k, v in c.items()})
+                    allnotes = Counter()
+                    for w in want:
+                        allnotes.update(nov(w["notes"]))
+                    gotnotes = Counter()
+                    for g in got:
+                        gotnotes.update(nov(g["notes"]))
+                    b.case("load/spines_of_one_part_load_as_one_part", len(got) == 1, case, "%d parts loaded for spines that share *part1" % len(got))
+                    b.case("load/notes_pitch_spelling_onset_duration_voice_staff", gotnotes == allnotes, case,
+                           "loaded only %r, denoted only %r" % (_fmt(sorted((gotnotes - allnotes).elements(), key=repr)[:3]), _fmt(sorted((allnotes - gotnotes).elements(), key=repr)[:3])))
+                    if len(got) == 1:
+                        b.case("load/measures_start_at_the_encoded_barlines", got[0]["measure_starts"] == want[0]["measure_starts"], case,
+                               "measure starts %r, encoded %r" % (_fmt(got[0]["measure_starts"]), _fmt(want[0]["measure_starts"])))
+                        b.case("load/divisions_represent_every_duration", len(got[0]["divs"]) == 1 and all((k[1] * got[0]["divs"][0]).denominator == 1 for k in allnotes), case,
+                               "divisions %r" % (got[0]["divs"],))
+                    continue
                 b.case("load/one_part_per_staff_or_spine", len(got) == len(want), case, "%d parts loaded, %d staves encoded" % (len(got), len(want)))
                 if len(got) != len(want):
                     continue
